@@ -194,8 +194,9 @@ CHECKS = {
               "Non-trivial = at least one envelope addressed to an outstanding call."
               " In half of the random cases the 'id nobody uses' is the id of a third call whose opening write was parked in the transport when its context ended."
               " The alphabet includes resets that carry an explicit OK status (with and without trailer)."
-              " twins: 2..6 unary and streaming calls take their ids within nanoseconds of each other (spin barrier at the verif hook points), the scripted peer answers each id it saw once or not at all, then the connection closes: every call has terminated."),
-        jobs=[dict(test="TestC13Enum", kind="enum", quick=1, thorough=1), dict(test="TestC13", quick=3200, thorough=40000), dict(test="TestC13Twins", quick=640, thorough=8000, shards=4), dict(test="FuzzC13", kind="fuzz", quick=0, thorough=150)],
+              " twins: 2..6 unary and streaming calls take their ids within nanoseconds of each other (spin barrier at the verif hook points), the scripted peer answers each id it saw once or not at all, then the connection closes: every call has terminated."
+              " lazy-then-gone: the peer sends 0..4 messages (and possibly the trailer) to a streaming call whose caller has not received yet; the caller's context ends (cancel or deadline); only then does it receive, several times: every success carries the next of the messages the peer sent."),
+        jobs=[dict(test="TestC13Enum", kind="enum", quick=1, thorough=1), dict(test="TestC13", quick=3200, thorough=40000), dict(test="TestC13Twins", quick=640, thorough=8000, shards=4), dict(test="TestC13Lazy", quick=640, thorough=8000, shards=4), dict(test="FuzzC13", kind="fuzz", quick=0, thorough=150)],
         assumptions=COMMON_ASSUMPTIONS,
     ),
     "C05": dict(
